@@ -166,7 +166,7 @@ def replay_chunk(ev, prop, kind, real, atoms, tests, c0, drv, rd, findings, chec
     vlib.write_lines(inp, all_lines)
     rc, o = vlib.run([drv, 'replay', inp, outp], timeout=1200, check=False)
     outs = vlib.split_executions(vlib.read_lines(outp))
-    if len(outs) != len(plans) and not (rc < 0 or rc >= 128):
+    if len(outs) != len(plans) and not (rc < 0 or rc >= 128 or rc == 3):
         raise vlib.CheckError('replay of the model tests: %d executions for %d tests (rc=%d) %s' % (len(outs), len(plans), rc, o[-500:]))
     bad = None
     for k, (_, lines, cps, t) in enumerate(plans):
